@@ -17,7 +17,7 @@ RULE = (
     "identity and a nonlinear sensor; CSE on and off; full dyadic grid; one evaluation = one process_jacobian / "
     "control_jacobian / sensor_jacobian call compared entry-by-entry with forward-mode derivatives of our own AST. "
     "Also definitions whose symbols carry sympy assumptions (all symbols real; only some; finite) and a block-size sweep "
-    "(Jacobian blocks of 1..64 entries, dense rows, rows with more temporaries than entries). "
+    "(Jacobian blocks of 1..64 entries, dense rows, rows with more temporaries than entries); filters that share sensor KEYS but not sensor expressions are built in one process and each checked after all were built. One ui.Model object (and one set of noise / sensor dictionaries) is also compiled four times with different calibration maps and CSE settings; every compiled object is checked against ITS calibration right after compiling and again after all were compiled. "
     "distinct = distinct definition records; non-trivial = some Jacobian entry depends on the evaluation point."
 )
 ASSUMPTIONS = [
@@ -53,8 +53,14 @@ def cases(tier, seed):
     # look-alike filters compiled one after the other in ONE process (both orders): no filter may depend on its predecessors
     look = [with_sensors(d) for d in space.family_ops("thorough") if len(d["state"]) == 2]
     look = [d for d in look if any(t in d["name"] for t in ("neg-", "pow", "div-by", "inv-", "recip", "mul-state", "sub-state", "add-state"))]
+    # ... and filters whose sensors share their KEYS (gps, alt) but not their expressions or sizes
+    samekeys = [space.bind_def(2, 1, 1, order=0, sensors_shape=(2, 1)), space.bind_def(2, 1, 1, order=3, sensors_shape=(1, 2), tag="-b"),
+                space.bind_def(3, 0, 1, order=2, sensors_shape=(3, 2)), space.bind_def(2, 0, 0, order=1, sensors_shape=(1, 1))]
     for order in ("fwd", "rev"):
-        yield {"kind": "sequence", "defs": look if tier == "thorough" else look[::2], "order": order, "seed": seed}
+        yield {"kind": "sequence", "defs": (look if tier == "thorough" else look[::2]) + samekeys, "order": order, "seed": seed}
+    # ONE ui.Model / sensor dict compiled several times with different calibration maps / CSE settings
+    for d_ in (space.bind_def(2, 1, 2, order=1, sensors_shape=(2, 1)), space.bind_def(3, 0, 1, order=2, sensors_shape=(1, 3))):
+        yield {"kind": "shared", "def": d_, "seed": seed}
 
 
 def cmp_matrix(name, got, ref, shape, fails, d, env, cse):
@@ -120,6 +126,11 @@ def eval_sequence(case):
 
 
 def eval_case(case):
+    if case.get("kind") == "shared":
+        from fv import ekfcheck
+        n, fails = ekfcheck.shared_inputs(case["def"], case["seed"], aspects=("jacobians",))
+        return {"n": n, "fails": fails, "sig": "shared:" + case["def"]["name"], "outcomes": ["evaluated", "shared-inputs"], "nontrivial": True,
+                "sample": {"kind": "shared-inputs", "definition": case["def"]["name"], "compiles_of_one_ui_model": 4, "calls": n}}
     if case.get("kind") == "sequence":
         return eval_sequence(case)
     d = case["def"]
